@@ -124,6 +124,10 @@ class MessageData(object):
                                     else:
                                         # Unrecognized data shape.
                                         pass
+                                elif len(value.shape) > 2 and value.shape[0] == len(is_nan):
+                                    # Higher-dimensional data (e.g., an Nx3x3 stack of covariance matrices): time is
+                                    # the first dimension.
+                                    self.__dict__[key] = value[keep_idx, ...]
                                 else:
                                     # Unrecognized data shape.
                                     pass
